@@ -46,6 +46,12 @@ def right_nested_float_sum(a) -> bool:
 WORKER = RealWorker()
 
 
+# chains of float literals next to an operand: any back end that folds or re-associates constants (value-changing
+# floating-point flags, an over-eager optimiser) shows up here with ordinary inputs such as 3.0
+LITERAL_CHAINS = ["a(i) = b(i) * 0.1 * 0.3", "a(i) = b(i) + 0.1 + 0.2", "a(i) = 0.1 * 0.3 * b(i)", "a(i) = b(i) * c(i) * 0.1 * 3.0",
+                  "a(i) = 0.1 + b(i) + 0.2 + c(i)", "a() = b(i) * 0.7 * 0.1"]
+
+
 def _float_literals(a):
     from tensora.expression import ast as s
 
@@ -68,7 +74,7 @@ def run(chk: Check, drv: Driver):
     quick = chk.tier == "quick"
     rng = chk.rng
     extra = ["a(i) = b(i) + (c(i) + d(i))", "a(i) = b(i) * (c(i) * d(i))", "a(i) = b(i) - (c(i) - d(i))", "a(i) = b(i) + (c(i) - d(i))",
-             "a(i) = b(i) * c(i) * d(i)", "a(i) = b(i,j) * c(j) + d(i)"]
+             "a(i) = b(i) * c(i) * d(i)", "a(i) = b(i,j) * c(j) + d(i)"] + LITERAL_CHAINS
     prepared = []
     for pr in kruns.enumerate_problems(chk, n_random=(10 if quick else 150), per_assignment=(1 if quick else 4), extra_texts=extra):
         if pr.problem is None or pr.broadcast:
@@ -95,9 +101,9 @@ def run(chk: Check, drv: Driver):
                                         pr.case(scopeOK=scope_ok, hoistConsistent=hoist_ok))
     if quick:
         # keep the F10-shaped ones and a sample of the rest
-        special = [p for p in prepared if right_nested_float_sum(p.assignment) or any(len(repr(v).replace(".", "").lstrip("0")) >= 16 for v in _float_literals(p.assignment))]
+        special = [p for p in prepared if p.text in LITERAL_CHAINS or right_nested_float_sum(p.assignment) or any(len(repr(v).replace(".", "").lstrip("0")) >= 16 for v in _float_literals(p.assignment))]
         rest = [p for p in prepared if p not in special]
-        prepared = special[:12] + rng.sample(rest, min(len(rest), 30))
+        prepared = special[:20] + rng.sample(rest, min(len(rest), 30))
     # certificates
     certs = drv.batch(["CERT hoist " + sx(export(pr.module)) for pr in prepared])
     for pr, c in zip(prepared, certs):
